@@ -377,7 +377,12 @@ static void op_exec(struct W* w, const char* op) {
       if (T is Array) { if (imod(A(1), 2)) sort(x); else sort_by(x, by_desc); P("ok"); } else P("-");
       return;
     }
-    if (strcmp(op, "rs") == 0) { resize(x, (size_t)imod(A(1), 30)); P("%zu", len(x)); return; }
+    if (strcmp(op, "rs") == 0) {
+      /* growing a List appends zero-filled, unconstructed elements: a String among them has no buffer, so
+         Lists of String only shrink; growing an Array only reserves slots */
+      size_t m = (T is List and E is String) ? (size_t)imod(A(1), n + 1) : (size_t)imod(A(1), 30);
+      resize(x, m); P("%zu", len(x)); return;
+    }
     if (strcmp(op, "cl") == 0) { resize(x, 0); P("ok"); return; }
     if (strcmp(op, "it") == 0) { P("["); foreach (i in x) { pv(i); P(" "); } P("]"); return; }
     if (strcmp(op, "ib") == 0) {
